@@ -1,0 +1,21 @@
+//go:build !verif
+
+package lungo
+
+import "time"
+
+func verifAwait(string, interface{}, func() bool) {}
+
+func verifYield(string, interface{}) {}
+
+func verifThreadStart(string, interface{}) {}
+
+func verifThreadEnd(string, interface{}) {}
+
+func verifThreadEnded(interface{}) bool { return true }
+
+func verifSignalReady(chan struct{}) bool { return false }
+
+func verifTick(*Engine) <-chan time.Time { return nil }
+
+func verifTickPending(*Engine) bool { return false }
